@@ -26,6 +26,7 @@ SameAsBefore == \A j \in 1..(l - 1) : (T.ev[j].a = Ev.a /\ T.ev[j].hn = Ev.hn) =
 Judge == LET v == Accepts(Expected, Ev.o)
          IN  IF v \in {"P:total", "P:value"} THEN v
              ELSE IF ~SameAsBefore THEN "P:memo"
+             ELSE IF v = "D:obs400" THEN "ok"          \* an obs-date refused without obs_date=True: documented
              ELSE v
 
 Step == /\ l >= 1 /\ l <= Len(T.ev) /\ verdict = "ok"
